@@ -12,7 +12,7 @@ LEAN_PROPS = "Litep2pVerif.Props.C11"
 THEOREMS = ["handler_total", "bug_table", "grammar_alternation_partial", "grammar_alternation_witness",
             "no_failure_while_open_partial", "closed_on_disconnect", "notif_only_while_open",
             "no_bug_reachable_partial", "no_bug_next_partial", "no_bug_reachable_witness",
-            "open_answered_once_partial", "open_answered_once_witness",
+            "open_answered_once_partial", "open_after_late_failure", "open_answered_once_witness",
             "inbound_after_accept_partial", "inbound_after_accept_witness"]
 MANIFEST = {
     "text": "Lean 4 theorems about an executable model of the notification per-peer state machine (all states, every "
@@ -20,13 +20,13 @@ MANIFEST = {
             "environment (Connection tasks with their two-step close, handshake service, validation answers, transport "
             "obeying the C08 grammar) as a labelled transition system. Proved for every (state, event) pair: handler "
             "totality with the computed bug table. Proved by invariant for every schedule of the restricted system "
-            "ReachP (all schedules and environment behaviours minus the three known findings, each excluded by one "
+            "ReachP (all schedules and environment behaviours minus the two known findings, each excluded by one "
             "explicit hypothesis: a closing Connection task finishes before the next event of that peer; a validation "
-            "answer is delivered only for the substream under validation; no SubstreamOpenFailure for the outbound "
-            "substream of an accepted/simultaneous stream): opened/closed alternate and no open failure is reported "
+            "answer is delivered only for the substream under validation): opened/closed alternate and no open failure is reported "
             "while open; closed is reported after a disconnect; no debug_assert fires; request markers and answers "
             "(opened / open failure; the user's own Reject counts as the answer, the code reports nothing then) "
-            "alternate strictly on the user channel, an open request for a connected idle peer is always taken up, and "
+            "alternate strictly on the user channel, an open request for a connected idle peer is always taken up (also "
+            "after a SubstreamOpenFailure for the outbound substream of an accepted stream: repaired defect), and "
             "nothing is owed once transport, handshakes, validations and timers are quiet; every opened is preceded in its "
             "negotiation round by the Accept the user gave for exactly its inbound substream, or by auto-accept while the "
             "user's own request is outstanding. The unrestricted statements are false of the code: four witness theorems, "
@@ -59,8 +59,6 @@ ASSUMPTIONS = ["the transport answers each substream request at most once and on
                "protocol handles the next event for that peer (false only if Substream::close() stays pending)",
                "partial theorems: the user answers a ValidateSubstream event before the protocol abandons that inbound "
                "substream (validation answers are keyed by peer, not by substream)",
-               "partial theorems: the transport reports no SubstreamOpenFailure for the outbound substream of a stream "
-               "whose inbound substream has already arrived (the handler then keeps the dead id as pending_open)",
                "open_answered_once counts the user's own Reject of the peer's inbound substream as the answer to the "
                "user's outstanding open request (the code reports nothing in that case)",
                "every spawned future is eventually polled; Substream::close() eventually completes"]
@@ -199,7 +197,12 @@ def witness_cases():
              "hs 1 out", "rread 1 in", "rread 1 out", "events", "state", "hs 2 out", "subin 2", "hs 2 in", "events",
              "send 2 0102", "rread 2 out", "rsend 2 in 0a0b", "events", "disc 2", "events", "state", "timer 1", "close 1",
              "events", "disc 1", "events", "state"]
-    return [stale_notice, late_closed, dangling, stale_accept, plain]
+    # open_answered_once_witness: the old task's late notice resets the state of a newly accepted stream, whose
+    # answer (opened / open failure) never comes
+    stale_request = ["cfg auto=0 dial=1", "conn 1", "subin 1", "hs 1 in", "events", "accept 1", "subout 1", "hs 1 out",
+                     "events", "stall 1 in", "rclose 1 in", "close 1", "subin 1", "hs 1 in", "events", "accept 1", "state",
+                     "release 1 in age=1", "events", "state", "disc 1", "events", "state"]
+    return [stale_notice, late_closed, dangling, stale_accept, plain, stale_request]
 
 
 def corpus():
